@@ -480,6 +480,10 @@ def Cmp(op: str, a: Expr, b: Expr) -> Expr:
     if a[0] in ("num", "bool") and b[0] in ("num", "bool"):
         x, y = float(a[1]), float(b[1])
         return Bool({"<": x < y, "<=": x <= y, ">": x > y, ">=": x >= y, "==": x == y, "!=": x != y}[op])
+    if a[0] == "num" and b[0] != "num":
+        # orientation: a constant goes to the right (`0 < x` and `x > 0` are one normal form)
+        a, b = b, a
+        op = {"<": ">", "<=": ">=", ">": "<", ">=": "<=", "==": "==", "!=": "!="}[op]
     return _mk("cmp", op, a, b)
 
 
